@@ -1,12 +1,12 @@
 #!/bin/sh
 # run every claimed check (quick tier) in parallel and summarise; used before committing evidence
-cd /verif
+cd "$(dirname "$0")/.."
 ids=$(python3 -c "import json; print(' '.join(c['property_id'] for c in json.load(open('MANIFEST.json'))['checks']))")
 for p in $ids; do ( ./check $p > .cache/runall_$p.out 2>&1; echo "$p exit=$?" >> .cache/runall_$p.out ) & done; wait
 for p in $ids; do tail -1 .cache/runall_$p.out; grep -h "VIOLATION\|KNOWN-FINDING" .cache/runall_$p.out; done
 python3 - <<'PY'
 import json,glob
-for f in sorted(glob.glob('/verif/evidence/C*.json')):
+for f in sorted(glob.glob('evidence/C*.json')):
     e=json.load(open(f)); c=e['coverage']
     flag = '' if c['obligations']==c['discharged'] and e.get('violations',0)==0 else '   <<<<<< NOT CLEAN'
     print(e['property_id'], c['obligations'], c['discharged'], c['evaluations'], c['distinct_nontrivial'], e['wall_s'], flag)
